@@ -100,7 +100,7 @@ def correspondence(ctx):
     return [suite_json(ctx)] + deccorr.suite_histories(ctx)
 
 
-def monitor(ctx):
+def monitor(ctx, only=None):
     """the property on the real code"""
     harness.load_repo()
     from nmea2000.decoder import NMEA2000Decoder
@@ -111,9 +111,9 @@ def monitor(ctx):
     hits = {}
     n = 0
     encs = dict(pgncorr.encoder_functions(pgns))
-    for sfx, p in db.defs.items():
+    for sfx, p in (db.defs.items() if not only else [(only[0], db.defs[only[0]])]):
         d = NMEA2000Decoder()
-        for x in pgncorr.payloads_for(p, rnd, True, 3)[:40]:
+        for x in ([only[1]] * 2 if only else pgncorr.payloads_for(p, rnd, True, 3)[:40]):
             nb = max(1, (p.get("Length") or (x.bit_length() + 7) // 8))
             data = (x & ((1 << (8 * nb)) - 1)).to_bytes(nb, "little")
             try:
@@ -170,6 +170,8 @@ def monitor(ctx):
                     b1 = None
                 if b0 != b1:
                     hits.setdefault(f"C15/reencode/{sfx}", (f"{sfx}: the parsed-back message encodes to {b1.hex() if b1 else None}, the original to {b0.hex() if b0 else None}", sfx, x))
+    if only:
+        return hits, n
     # dump: exactly the matching messages, in order
     for dump_pgns in ([], [127508], ["batteryStatus"], ["vesselHeading", 130312], ["BATTERYSTATUS"], ["airmarAddressableMultiFrame"],
                       ["0x1ef00ManufacturerProprietaryFastPacketAddressed", 128275], ["0x1ff000x1ffffManufacturerSpecificFastPacketNonAddressed"], ["lowranceTemperature", "simnetLgc2000Configuration"]):
@@ -242,4 +244,13 @@ def standing_search(ctx):
 
 
 def replay(rp):
-    return False, str(rp.get("what") or rp.get("broken_theorems") or rp.get("broken_correspondence"))[:500]
+    try:
+        sfx, x = rp["function"], int(rp["payload"])
+        harness.load_repo()
+        if sfx not in pgncorr.Db(common.REPO).defs:
+            raise KeyError(sfx)
+    except Exception:
+        return False, "not a single-message replay (re-run the check): " + str(rp.get("what") or rp.get("broken_theorems") or rp.get("broken_correspondence"))[:500]
+    hits, _ = monitor({"seed": rp.get("seed", 0), "tier": "quick", "repo": common.REPO}, only=(sfx, x))
+    hits = {k: v for k, v in hits.items() if not k.startswith("C15/nonfinite-null")} if "nonfinite" not in str(rp.get("key")) else hits
+    return not hits, ("; ".join(v[0] for v in hits.values())[:500] if hits else "holds now")
